@@ -48,40 +48,119 @@ def as_complex(f):
     return np.ascontiguousarray(np.asarray(f).astype(complex))
 
 
-def samples_arg(form, M, N):
-    if form == 'int' and M == N:
-        return int(M)
-    if form == 'list':
-        return [int(M), int(N)]
-    if form == 'array':
-        return np.array([M, N])
-    return (int(M), int(N))
+class Args:
+    """argument objects of one predicate evaluation / correspondence case: built ONCE per (kind, form, values) and handed to
+    every repeated call, as a user holding `shift = np.array([...])` would; `changed()` reports a caller-owned object that an
+    implementation modified in place"""
+
+    def __init__(self):
+        self.objs, self.snaps = {}, {}
+
+    def get(self, key, make):
+        if key not in self.objs:
+            o = make()
+            self.objs[key] = o
+            self.snaps[key] = o.copy() if isinstance(o, np.ndarray) else (list(o) if isinstance(o, list) else o)
+        return self.objs[key]
+
+    def changed(self):
+        for k, o in self.objs.items():
+            sn = self.snaps[k]
+            if isinstance(o, np.ndarray):
+                if o.dtype != sn.dtype or o.shape != sn.shape or not np.array_equal(o, sn):
+                    return f'the caller-owned {k[0]} array {sn.tolist()} ({sn.dtype}) was modified in place to {o.tolist()}'
+            elif isinstance(o, list) and o != sn:
+                return f'the caller-owned {k[0]} list {sn} was modified in place to {o}'
+        return None
 
 
-def shift_arg(form, sx, sy):
-    if form == 'list':
-        return [sx, sy]
-    if form == 'array':
-        return np.array([sx, sy], dtype=float)
-    return (sx, sy)
+SAMPLE_FORMS = ['tuple', 'tuple', 'list', 'array', 'array32', 'nptuple']
+SHIFT_FORMS = ['tuple', 'tuple', 'list', 'array', 'array', 'array32', 'arrayint', 'npscalars']
+
+
+def samples_arg(form, M, N, args=None):
+    def make():
+        if form == 'int' and M == N:
+            return int(M)
+        if form == 'npint' and M == N:
+            return np.int64(M)
+        if form == 'list':
+            return [int(M), int(N)]
+        if form == 'array':
+            return np.array([M, N])
+        if form == 'array32':
+            return np.array([M, N], dtype=np.int32)
+        if form == 'nptuple':
+            return (np.int32(M), np.int64(N))
+        return (int(M), int(N))
+    return make() if args is None else args.get(('output_samples', form, int(M), int(N)), make)
+
+
+def eff_shift(c, unit):
+    """the physical shift (x, y) that is actually passed for this case: requested samples * unit, after the rounding that
+    the container of the case implies (float32 array, integer array)"""
+    sx, sy = c['shift'][0] * unit, c['shift'][1] * unit
+    hf = c.get('hform', 'tuple')
+    if hf == 'array32':
+        sx, sy = float(np.float32(sx)), float(np.float32(sy))
+    elif hf == 'arrayint':
+        sx, sy = float(round(sx)), float(round(sy))
+    return sx, sy
+
+
+def shift_arg(form, sx, sy, args=None):
+    def make():
+        if form == 'list':
+            return [sx, sy]
+        if form == 'array':
+            return np.array([sx, sy], dtype=np.float64)
+        if form == 'array32':
+            return np.array([sx, sy], dtype=np.float32)
+        if form == 'arrayint':
+            return np.array([int(round(sx)), int(round(sy))], dtype=np.int64)
+        if form == 'npscalars':
+            return (np.float64(sx), np.float64(sy))
+        return (sx, sy)
+    return make() if args is None else args.get(('shift', form, float(sx), float(sy)), make)
+
+
+def q_arg(form, Qy, Qx, args=None):
+    def make():
+        if form == 'list':
+            return [Qy, Qx]
+        if form == 'array':
+            return np.array([Qy, Qx], dtype=np.float64)
+        if form == 'array32':
+            return np.array([Qy, Qx], dtype=np.float32)
+        if form == 'npscalars':
+            return (np.float64(Qy), np.float64(Qx))
+        return (Qy, Qx)
+    return make() if args is None else args.get(('Q', form, float(Qy), float(Qx)), make)
 
 
 def draw_forms(rng, M, N, shift):
-    sf = ['tuple', 'tuple', 'list', 'array'][int(rng.integers(4))]
+    sf = SAMPLE_FORMS[int(rng.integers(len(SAMPLE_FORMS)))]
     if M == N and rng.integers(2):
-        sf = 'int'
-    hf = ['tuple', 'tuple', 'list', 'array'][int(rng.integers(4))]
+        sf = 'int' if rng.integers(2) else 'npint'
+    hf = SHIFT_FORMS[int(rng.integers(len(SHIFT_FORMS)))]
     if not any(shift) and rng.integers(2):
         hf = 'default'
     return sf, hf
 
 
-def call_fixed(fn, f, dx, z, lam, dxo, M, N, sx, sy, method, sform='tuple', hform='tuple'):
-    """free function focus_fixed_sampling / unfocus_fixed_sampling with the requested argument spellings"""
+def call_fixed(fn, f, dx, z, lam, dxo, M, N, sx, sy, method, sform='tuple', hform='tuple', args=None):
+    """free function focus_fixed_sampling / unfocus_fixed_sampling with the requested argument spellings; with `args` the
+    SAME container objects are handed to every call of the case"""
     kw = {'method': method}
     if hform != 'default':
-        kw['shift'] = shift_arg(hform, sx, sy)
-    return fn(f, dx, z, lam, dxo, samples_arg(sform, M, N), **kw)
+        kw['shift'] = shift_arg(hform, sx, sy, args)
+    return fn(f, dx, z, lam, dxo, samples_arg(sform, M, N, args), **kw)
+
+
+def tol_of(c, tol=1e-9):
+    """comparison tolerance of a case: a shift handed over as a float32 array is divided by output_dx in float32 by NumPy's
+    promotion rules (the user's own precision), so those cases are compared at float32 accuracy"""
+    return 1e-5 if c.get('hform') == 'array32' or c.get('qform') == 'array32' else tol
 
 
 def check_wavefront(w, what, data_shape=None, dx=None, wavelength=None, space=None):
@@ -105,3 +184,35 @@ def check_wavefront(w, what, data_shape=None, dx=None, wavelength=None, space=No
     if space is not None and w.space != space:
         return f'{what}.space = {w.space!r}, expected {space!r}'
     return None
+
+
+def prelude(c):
+    """a deterministic history of EARLIER calls derived from a case: both executors, both directions, with non-zero shifts, on
+    every pair of axis lengths that occurs in the case.  A replay that holds in a fresh process is repeated after this history,
+    so that failures which need earlier calls (a corrupted cache, shared coordinate vectors, ...) reproduce; returns a
+    description of the history"""
+    from prysm import fttools as ft
+    sizes = set()
+    for k in ('m', 'n', 'M', 'N', 'My', 'Mx'):
+        if isinstance(c.get(k), int):
+            sizes.add(c[k])
+    if 'pad' in c and 'm' in c:
+        sizes.update((c['m'] + c['pad'][0], c['n'] + c['pad'][1]))
+    if 'Q' in c and not isinstance(c['Q'], list) and 'm' in c:
+        import math
+        sizes.update((math.ceil(c['m'] * c['Q']), math.ceil(c['n'] * c['Q'])))
+    sizes = sorted(sizes)[:7]
+    n = 0
+    for a in sizes:
+        for b in sizes:
+            x = np.ones((a, b), dtype=complex)
+            for ex in (ft.mdft.dft2, ft.mdft.idft2, ft.czt.czt2, ft.czt.iczt2):
+                try:
+                    ex(x, (1.3, 1.7), (b, a), (1.5 + 0.37 * a, -2.25 - 0.11 * b))
+                    n += 1
+                except Exception:
+                    pass
+    ft.mdft.clear()
+    ft.czt.clear()
+    return (f'{n} earlier executor calls (dft2 / idft2 / czt2 / iczt2, Q=(1.3,1.7), shift=(1.5+0.37a,-2.25-0.11b) for an a x b input) on all pairs of the axis '
+            f'lengths {sizes}, then mdft.clear() and czt.clear()')
